@@ -110,6 +110,12 @@ def gen_config(rng, ci):
     head = ['ingress { listen "__INGRESS__" }',
             'pull_api {\n  listen "__PULL__"\n  auth token "raw:verif-c10"\n}',
             'admin_api { listen "__ADMIN__" }']
+    # a `vars` block makes Compile work on an expanded copy of the parsed file instead of the file itself: the copy must carry every
+    # route's channel; sometimes a placeholder is also used inside a deliver URL
+    if ci % 3 == 1:
+        head.append('vars {\n  TARGET_BASE "https://vars%d.example"\n  UNUSED_NOTE "x"\n}' % ci)
+        if rng.random() < 0.5:
+            blocks = [b.replace('"https://t%d.example/0' % ci, '"{vars.TARGET_BASE}/0') for b in blocks]
     return "\n".join(head + blocks) + "\n", meta
 
 
@@ -427,7 +433,7 @@ def main(ctx, replay):
     rng = random.Random(ctx.seed)
     info = C.prologue(ctx)
     if info["hbin"] is None:
-        raise RuntimeError("harness build failed:\n" + info.get("go_log", ""))
+        raise C.HarnessBuildFailed(info.get("go_log", ""))
     quick = ctx.tier == "quick"
     n_cfg = 50 if quick else 400
     n_http, n_direct = (100, 80) if quick else (300, 240)
@@ -559,6 +565,15 @@ def main(ctx, replay):
         if not co["ok"]:
             continue
         routes = co["routes"]
+        # glue: what the file declares is what the compiled table says (same routes, same order, same channel)
+        declared = [(p_, k_ if k_ != "inbound" else "") for (k_, p_) in metas[ci]]
+        compiled = [(L.unhx(r["path"]).decode("latin-1"), r["channel"] if r["channel"] in ("outbound", "internal") else "") for r in routes]
+        if sorted(declared) != sorted(compiled):
+            col.add("declared-channel-lost", (len(routes), len(configs[ci])),
+                     "the compiled route table differs from the declared one: declared %s, compiled %s" % (
+                         [d for d in declared if d not in compiled][:4], [c for c in compiled if c not in declared][:4]),
+                     {"kind": "config", "case": {"config": configs[ci]}, "observed": compiled, "expected": declared,
+                      "how_to_replay": "./check C10 --replay <this file>"})
         for r in routes:
             dist["routes_by_channel"][r["channel"] if r["channel"] in ("outbound", "internal") else "inbound"] += 1
         seen_rows = {}
